@@ -152,7 +152,7 @@ class ExprMixin:
 
     # ------------------------------------------------------------ operators
     def ev_boolop(self, n, st, old):
-        vals = [self.ev(v, st, old) for v in n.values] if self._pure_bool(n) else None
+        vals = [self.ev(v, st, old) for v in n.values] if (self.spec_mode or self._pure_bool(n)) else None
         if vals is None:
             # short-circuit with forks (sub-expressions may have effects / raise)
             is_and = isinstance(n.op, ast.And)
